@@ -604,7 +604,12 @@ def binop(op, a, b, need):
         return mk(x * y, isf)
     if op == "/":
         need(y != 0, "ZeroDivisionError")
-        return SFloat(x / y)
+        q = x / y
+        if not z3.is_rational_value(z3.simplify(y)):
+            # sign facts about a quotient by a symbolic divisor (help the nonlinear solver)
+            need(z3.And(z3.Implies(z3.And(x >= 0, y > 0), q >= 0), z3.Implies(z3.And(x <= 0, y > 0), q <= 0),
+                        z3.Implies(z3.And(x > 0, y > 0), q > 0)), "__assume__")
+        return SFloat(q)
     if op == "//":
         need(y != 0, "ZeroDivisionError")
         # floor of the real quotient (python float floor division on exact values)
